@@ -34,7 +34,7 @@ def conclude(agg):
     c = agg['counters']
     r = []
     for k in ('waveforms', 'overflowed_waveforms', 'capture_rows', 'driver_ops', 'reached/overflow-branch', 'reached/pulse-filter',
-              'cases/cuda', 'cases/cpu', 'multi_transition_waveforms'):
+              'cases/cuda', 'cases/cpu', 'multi_transition_waveforms', 'reused_simulator_epochs'):
         if c.get(k, 0) == 0:
             r.append(f'monitor counter {k} is zero')
     return r
@@ -49,6 +49,16 @@ def check_case(case, ctx):
     with ctx.guard('simulation-raises', case):
         sim = WC.make_sim(r)
         WC.simulate(r, sim)
+        if case.get('epochs', 1) > 1:
+            # the same simulator object is used again with other stimuli (as in batch processing): results must not depend on what
+            # an earlier run left in the input slots / signal memory.  Only the last epoch is checked below.
+            for e in range(1, case['epochs']):
+                case2 = dict(case, stim_seed=case['stim_seed'] + e, multi=(e % 2 == 0) and case['multi'])
+                r2 = WC.materialize(case2, b=b)
+                r.stim = r2.stim
+                WC.simulate(r, sim)
+                ctx.count('reused_simulator_epochs')
+            vi, vf = WC.expected_values(r)
         c = np.asarray(sim.c)
         if not case['c_reuse']:
             for li, sig in b.line_sig.items():
@@ -161,6 +171,7 @@ def run(spec, ctx):
         rng = random.Random(f'C03/{spec["seed"]}/{spec["shard"]}/{i}')
         caps = 4 if i % 5 == 0 else None        # capacity 4 + XOR-rich circuits provoke overflow
         case = WC.gen_case(rng, xor_rich=True if i % 5 == 0 else None, caps=caps)
+        case['epochs'] = rng.choice([1, 1, 2, 3])
         check_case(case, ctx)
     for i in range(spec['drv']):
         rng = random.Random(f'C03d/{spec["seed"]}/{spec["shard"]}/{i}')
